@@ -392,6 +392,9 @@ def contains(ex, container, item, node):
         return item in container
     if isinstance(container, str) and isinstance(item, SymVal) and item.sort == 'str':
         return SymVal('bool', z3.Contains(z3.StringVal(container), item.t))
+    if ex.atoms is not None and isinstance(container, (list, tuple, set, frozenset, dict)) and len(container) > 3 and isinstance(item, SymVal) and item.sort == 'str' \
+            and all(isinstance(x, str) for x in container):
+        return ex.new_atom(('member', frozenset(container)), item)
     if isinstance(container, (list, tuple, set, frozenset, dict)) or type(container).__name__ in ('dict_keys',):
         if isinstance(item, SymVal):
             conds = []
@@ -745,6 +748,8 @@ def symval_method(ex, recv, name, args, kwargs, node):
         ex.assume(z3.Length(pad) == k)
         ex.assume(z3.InRe(pad, z3.Star(z3.Re(z3.StringVal(' ')))))
         return SymVal('str', z3.Concat(s, pad))
+    if ex.atoms is not None and name in ('isidentifier', 'isalnum', 'isalpha', 'isdigit', 'isdecimal', 'isnumeric', 'isascii') and not args:
+        return ex.new_atom(('strpred', name), recv)
     if name == 'isdigit':
         return SymVal('bool', z3.InRe(s, z3.Plus(z3.Range('0', '9'))))
     if name == 'split':
@@ -773,6 +778,26 @@ def call_external(ex, f, args, kwargs, node):
     key = (getattr(f, '__module__', None), getattr(f, '__qualname__', getattr(f, '__name__', None)))
     if key in ex.stubs:
         return ex.stubs[key](ex, args, kwargs, node)
+    # logging has no effect on results (assumption register): calls on logger objects are no-ops
+    _owner = getattr(f, '__self__', None)
+    if _owner is not None and type(_owner).__name__ in ('Logger', 'RootLogger', 'SlyLogger', 'LoggerAdapter') and getattr(f, '__name__', '') in (
+            'debug', 'info', 'warning', 'warn', 'error', 'critical', 'exception', 'log'):
+        return None
+    if getattr(f, '__qualname__', '').startswith(('Logger.', 'SlyLogger.')) and getattr(f, '__name__', '') in ('debug', 'info', 'warning', 'warn', 'error', 'critical', 'exception', 'log'):
+        return None
+    # methods of a compiled pattern are the module-level re functions with the pattern put first: contracts stub ('re', name) once
+    import re as _re0
+    if isinstance(_owner, _re0.Pattern) and ('re', getattr(f, '__name__', '')) in ex.stubs and not (ex.atoms is not None and f.__name__ in ('fullmatch', 'match')):
+        return ex.stubs[('re', f.__name__)](ex, [_owner.pattern] + list(args), kwargs, node)
+    if ex.atoms is not None:
+        import re as _re
+        rx = getattr(f, '__self__', None)
+        if isinstance(rx, _re.Pattern) and getattr(f, '__name__', '') in ('fullmatch', 'match') and len(args) == 1 and isinstance(args[0], SymVal) and not kwargs:
+            return ex.new_atom(('regex', rx.pattern, rx.flags, f.__name__), args[0])
+        if f in (_re.fullmatch, _re.match) and len(args) >= 2 and isinstance(args[0], str) and isinstance(args[1], SymVal):
+            fl = args[2] if len(args) > 2 else kwargs.get('flags', 0)
+            if isinstance(fl, int):
+                return ex.new_atom(('regex', args[0], int(fl), f.__name__), args[1])
     if type(f).__name__ == 'method_descriptor' and getattr(f, '__objclass__', None) in (str, list, dict) and args:
         # unbound builtin method, e.g. map(str.lower, parts)
         recv = args[0]
